@@ -163,8 +163,14 @@ def gen_together(r, ncases, parallel):
         order = r.shuffle(ids)
         delays = ",".join(str(r.range(0, 3000)) for _ in order)
         ops.append(f"su.together fans={','.join(order)} delays_us={delays}")
-        k = r.below(4)
-        if k == 0:
+        k = r.below(5)
+        if k == 4:
+            # the stored PWM map of some fans is lost (RPM curve kept): only the map is computed again, still one at a time
+            for fid in ids:
+                if r.chance(0.7):
+                    ops.append(f"su.delmap fan={fid}")
+            ops.append(f"su.together fans={','.join(r.shuffle(ids))} delays_us={','.join(str(r.range(0, 2000)) for _ in ids)}")
+        elif k == 0:
             # restart of all: nothing to analyse any more
             ops.append(f"su.together fans={','.join(r.shuffle(ids))} delays_us={','.join(str(r.range(0, 500)) for _ in ids)}")
         elif k == 1:
